@@ -202,16 +202,173 @@ PROPS["C15"] = {"fn": c15, "level": "other",
     "explanation": "The single straight-line path of compile_conditional is interpreted into a symbolic template; every path through the template (fragments succeed or fail to the innermost pending Split) is explored tracking explicit-stack depth."}
 
 
-def _tmp_all_tmpl(run, ctx):
-    import fam_enc
+import fam_enc
+import fam_parse
+import fam_expand
+import fam_taint
+import fam_xfer
+from facts import strip_generics as _sg
+
+
+def c01(run, ctx):
+    fam_tmpl.ctx_rule(run, ctx)
+    fam_tmpl.concat_predicates(run, ctx)
+    fam_tmpl.visit_delegation_gate(run, ctx)
+    fam_tmpl.builder_helpers(run, ctx)
+    fam_tmpl.compile_repeat(run, ctx)
+    fam_tmpl.compile_alt(run, ctx)
+    fam_vm.split_jmp_arms(run, ctx)
+    fam_vm.repeat_arms(run, ctx)
+    fam_vm.end_arm(run, ctx)
     fam_enc.opcode_rule(run, ctx)
+    fam_enc.any_arms_rule(run, ctx)
+    fam_enc.slot_rule(run, ctx)
+    fam_enc.wrap_tree_rule(run, ctx)
+    fam_parse.backref_registration(run, ctx)
+    fam_tmpl.atomic_and_group_arms(run, ctx)
+
+
+def c02(run, ctx):
+    fam_enc.slot_rule(run, ctx)
+    fam_enc.wrap_tree_rule(run, ctx)
+    fam_tmpl.atomic_and_group_arms(run, ctx)
+    fam_tmpl.builder_helpers(run, ctx)
+    fam_vm.own_state(run, ctx)
+    fam_vm.state_methods(run, ctx)
+    fam_parse.group_counting(run, ctx)
+    fam_xfer.analyzer_rule(run, ctx)
+
+
+def c03(run, ctx):
+    fam_tmpl.visit_delegation_gate(run, ctx)
+    fam_tmpl.ctx_rule(run, ctx)
+    fam_tmpl.concat_predicates(run, ctx)
+    fam_enc.printable_rule(run, ctx)
     fam_enc.assertion_rule(run, ctx)
     fam_enc.any_arms_rule(run, ctx)
-    fam_enc.byte_class_tables(run, ctx)
-    fam_enc.printable_rule(run, ctx)
+    fam_enc.slot_rule(run, ctx)
     fam_enc.escape_rule(run, ctx)
+    fam_xfer.analyzer_rule(run, ctx)
+
+
+def c12(run, ctx):
+    fam_expand.writers_agree(run, ctx)
+    fam_expand.check_rule(run, ctx)
+    fam_expand.constructors(run, ctx)
+    fam_expand.scanner_shape(run, ctx)
+    fns, entries = fam_panic.scope_fns(ctx, "search")
+    fam_panic.run(run, ctx, fns, "expand", restrict=lambda sp: sp.startswith("expand::") or sp in ("parse::parse_id", "parse::parse_decimal", "Captures::expand") or sp.startswith("parse::parse_id::") or sp.startswith("parse::parse_decimal::"))
+
+
+def c13(run, ctx):
+    fam_xfer.analyzer_rule(run, ctx)
+    fam_xfer.backref_validity(run, ctx)
+    fam_tmpl.atomic_and_group_arms(run, ctx)
+    fam_tmpl.compile_lookaround_dispatch(run, ctx)
+    fam_tmpl.concat_predicates(run, ctx)
+    fam_enc.any_arms_rule(run, ctx)
+    fam_enc.byte_class_tables(run, ctx)
+
+
+def c16(run, ctx):
+    fam_parse.group_counting(run, ctx)
+    fam_parse.names_api(run, ctx)
+    fam_xfer.analyzer_rule(run, ctx)
     fam_enc.slot_rule(run, ctx)
     fam_enc.wrap_tree_rule(run, ctx)
 
 
-PROPS["TMP"] = {"fn": _tmp_all_tmpl, "level": "other", "explanation": "tmp", "technique": "", "claim": "", "note": ""}
+def c17(run, ctx):
+    fam_enc.escape_rule(run, ctx)
+    fam_enc.printable_rule(run, ctx)
+
+
+def c19(run, ctx):
+    fam_parse.group_counting(run, ctx)
+    fam_parse.backref_registration(run, ctx)
+    fam_parse.backref_spellings(run, ctx)
+    fam_parse.flags_rule(run, ctx)
+    fam_parse.escape_table(run, ctx)
+
+
+_c05_old = c05
+_c06_old = c06
+_c07_old = c07
+_c15_old = c15
+
+
+def c05(run, ctx):
+    _c05_old(run, ctx)
+    fam_vm.own_ix(run, ctx)
+    fam_vm.end_arm(run, ctx)
+    fam_enc.any_arms_rule(run, ctx)
+    fam_enc.byte_class_tables(run, ctx)
+
+
+def c06(run, ctx):
+    _c06_old(run, ctx)
+    fam_taint.alloc_sinks(run, ctx)
+    fam_taint.recursion(run, ctx)
+    fam_taint.byte_steps(run, ctx)
+    fam_taint.error_mapping(run, ctx)
+    fam_enc.printable_rule(run, ctx)
+
+
+def c07(run, ctx):
+    _c07_old(run, ctx)
+    fam_tmpl.compile_repeat(run, ctx)
+    fam_xfer.analyzer_rule(run, ctx)
+
+
+def c15(run, ctx):
+    _c15_old(run, ctx)
+    fam_parse.conditional_rule(run, ctx)
+    fam_enc.any_arms_rule(run, ctx)
+    fam_xfer.analyzer_rule(run, ctx)
+
+
+for _p, _f in (("C05", c05), ("C06", c06), ("C07", c07), ("C15", c15)):
+    PROPS[_p]["fn"] = _f
+
+_SHAPE_NOTE = "Necessary structural conditions only; shape obligations are tied to the current decomposition of the code, so a behaviour-preserving rewrite of an anchored function is reported as anchor-missing rather than silently passing."
+
+PROPS["C01"] = {"fn": c01, "level": "other",
+    "technique": "context/delegation predicates (CTX), symbolic emission templates (TMPL), interpreter-arm obligations, opcode/operand-role tables (ENC), backreference registration (MPT)",
+    "claim": "Structural necessary conditions of the reference semantics: priority order is encoded consistently (Split pushes its second operand, the compiler patches the fallback there; greedy/lazy templates; alternation chain in textual order), nothing that may need backtracking into is delegated (context argument of every visit call, concat prefix/suffix predicates, middle children hard), every backreference spelling registers its group so it is not swallowed by a delegate, delegates search anchored at ix, every opcode is handled, \\K lowers to Save(0) and End caps start <= end. Which strings match is not decided.",
+    "note": _SHAPE_NOTE + " The behavioural statement (equality with a reference backtracker over all patterns and texts) is outside static reach.",
+    "explanation": "Each compile-side builder is interpreted into symbolic templates; each interpreter arm is path-enumerated against its obligations; tables are compared between compiler and VM."}
+PROPS["C02"] = {"fn": c02, "level": "other",
+    "technique": "slot-layout linear forms (SLOT), group template, undo-log obligations (STATE/OWN), counting agreement parser <-> analyser",
+    "claim": "One capture-slot layout agreed by the writer and all readers: Save(2g)/Save(2g+1) around group bodies, Delegate copy loop with the +1 shift for the delegate's group 0 and the unset fill for unmatched inner groups, Captures::get/len/truncate, n_groups; group numbers follow opening-parenthesis order (parser counts exactly the Group-producing branches, analyser counts in the Group arm before visiting); nothing left over from abandoned alternatives reduces to the undo-log discipline (shared with C20). Which iteration's span is reported for an input is not decided.",
+    "note": _SHAPE_NOTE,
+    "explanation": "Index expressions that address saves are reduced to linear forms a*g+b and compared with the layout; State methods are path-enumerated."}
+PROPS["C03"] = {"fn": c03, "level": "other",
+    "technique": "delegation gate and context predicates (CTX), three-column assertion table and printable-vs-hard exhaustiveness (ENC), transfer-function soundness (XFER)",
+    "claim": "The VM/automata split is legal wherever it is made (visit delegates iff neither context nor expression is hard; concat predicates; context only weakened at cuts), the two implementations of each primitive mean the same (assertion table parser/to_str/LookMatcher, Any/AnyNoNL vs (?s:.)/., Lit vs push_quoted), re-serialisation is total and precedence-correct on what can be delegated, delegate captures land in the outer slots, the whole-pattern hand-off is taken iff the user's expression is not hard. That regex-automata's answer on a delegated fragment equals the VM's is C04's run-time content and not decided.",
+    "note": _SHAPE_NOTE,
+    "explanation": "Tables are extracted from the match arms of to_str, Analyzer::visit, Assertion::is_hard and the VM and compared row by row; predicates are extracted from the take_while closures."}
+PROPS["C12"] = {"fn": c12, "level": "other",
+    "technique": "sibling agreement of the two writers, obligation table for Expander::check, constructor ownership, scanner alternative order, panic audit of the expansion code",
+    "claim": "Narrow structural claim: std and no-std writers are identical modulo the write primitive and implement 'named group, else group whose number the name spells, else nothing'; Expander::check accepts a numeric reference only if 0 or (no named groups and < captures_len) and a named one only if it exists; Expander is only constructed with a one-byte substitution character and non-empty delimiters (which makes `$$`-skip and escape's doubling inverse); the scanner tries doubled char, delimited/undelimited name, number, fallback in the documented order; no unaudited panic site in the expansion code. The scanner's string semantics for concrete templates (longest identifier etc. inside parse_id) is not decided.",
+    "note": _SHAPE_NOTE,
+    "explanation": "Closures of both writers are canonicalised with the write primitive abstracted and compared; other obligations are matched on canonical HIR."}
+PROPS["C13"] = {"fn": c13, "level": "other",
+    "technique": "extraction of Analyzer::visit's 18 transfer functions and comparison with reference length-set semantics on a finite grid of child facts (XFER); look-behind templates; GoBack arm; UTF-8 byte-class tables",
+    "claim": "The analyser's size facts are sound by induction over the tree: for every arm, for all child facts consistent with the induction hypothesis, min_size is a lower bound of every possible match length and const_size implies a single length equal to min_size; hard children make the parent hard; look-behind emission is guarded by const_size (else LookBehindNotConst) and steps back exactly min_size code points before the body; variable-size alternations are split per alternative; GoBack fails at 0 and steps by code points (prev_codepoint_ix stops exactly on non-continuation bytes). The differential clause on concrete multi-byte texts is not decided.",
+    "note": "Grid: child length sets over {0,1,2}, lo/hi in {0,1,2,MAX}; lengths capped at 7. Expr::Delegate's size field is trusted as set by the parser. " + _SHAPE_NOTE,
+    "explanation": "A small abstract interpreter over the HIR of each arm (no repository code runs) yields formulas over child facts; they are evaluated against the reference semantics on every valuation of the grid."}
+PROPS["C16"] = {"fn": c16, "level": "other",
+    "technique": "counting agreement parser/analyser/wrap_tree, slot-layout rules for captures_len / len / get / truncate, names API shapes",
+    "claim": "Group metadata is consistent by construction: exactly the three Group-producing branches of parse_group increment curr_group (once, before parsing the body) and names are recorded with the new number; the analyser increments group_ix only in the Group arm before visiting; wrap_tree contributes exactly one group in front; n_groups = end_group, truncate(n_groups*2), len = saves/2, get reads (2i, 2i+1) and answers None beyond; capture_names is sized by captures_len and indexed by group number; name(n) = get(index of n); iter yields get(0..len).",
+    "note": "The Wrap side (regex-automata group info) is the dependency's contract; equality of the two engines' counts follows from to_str printing Group as a plain capture group (ENC). " + _SHAPE_NOTE,
+    "explanation": "Paths of parse_group are enumerated per result kind; Info/Regex/Captures accessors are matched on canonical HIR."}
+PROPS["C17"] = {"fn": c17, "level": "other",
+    "technique": "set extraction and inclusion: is_special vs parser dispatch bytes vs regex-syntax meta characters; users of the table",
+    "claim": "is_special (extracted from its patterns) is a superset of every byte the fancy parser dispatches on and of regex-syntax's meta characters outside classes (read from the vendored source of the locked version), and contains nothing whose escaped form means something else (alphanumerics, <, >, non-ASCII); escape borrows iff the special-byte count is 0 and otherwise quotes with push_quoted, the same function to_str uses for literals. The behavioural round trip for a given string follows from this plus C01/C03 and is not separately decided.",
+    "note": "Class-only (&, -, ~), bare-literal (], }) and x-mode-only (#) meta characters of regex-syntax are excluded from the required set and that is stated in the evidence.",
+    "explanation": "Character sets are extracted from HIR patterns and from the dependency's source text and compared as sets."}
+PROPS["C19"] = {"fn": c19, "level": "other",
+    "technique": "sibling agreement of syntax forms, must-pass-through on flag save/restore, escape table rows",
+    "claim": "Narrow structural claim on the bookkeeping each documented equivalence depends on: named / Python-named / plain groups count identically; every backreference spelling goes through a constructor that registers and bounds the group; <..> and '..' delimiter forms and (?P=..)/(?P>..) are parsed with identical options, relative references resolve to curr_group + 1 - n, names win over numbers; scoped flag groups restore the saved flags after their body on every path to Ok and unscoped ones do not; flag letters update distinct single bits that take effect where documented; possessive quantifiers parse to AtomicGroup(Repeat); the escape rows \\A \\z \\b \\B \\< \\> \\K \\G \\h \\H \\e .. \\x \\u \\U \\Z expand as documented. Tree equality of arbitrary respellings over the pattern space is not decided.",
+    "note": _SHAPE_NOTE,
+    "explanation": "Call sites of the two backreference constructors are enumerated and compared; parse_flags is path-enumerated; escape branches are located by their canonical condition and compared with the table."}
